@@ -1137,6 +1137,10 @@ def _fold_stable_aliases(fn):
                     elif is_const(v) and not isinstance(v, (ast.Constant, ast.Name)):
                         folds[t] = v
                         continue
+                    elif "__" in t and isinstance(v, ast.Constant) and isinstance(v.value, (str, int)) and not isinstance(v.value, bool):
+                        # a constant bound to a temporary of the normaliser (a table row unpacked, an inlined argument)
+                        folds[t] = v
+                        continue
 
                     elif isinstance(v, ast.Call) and isinstance(v.func, ast.Name) and v.func.id == "isinstance" and len(v.args) == 2 and isinstance(v.args[0], ast.Name) \
                             and binds.get(v.args[0].id, 0) <= 1 and "__" in t:
@@ -1764,7 +1768,7 @@ class _MembershipInModuleTuple(ast.NodeTransformer):
         return node
 
 
-def _unroll_literal_loops(fn):
+def _unroll_literal_loops(fn, module_tables=None):
     """for v in (a, b, c): BODY   ->   v__u1 = a; BODY[v := v__u1]; v__u2 = b; BODY[v := v__u2]; ...
     for a display of at most 6 names / attribute chains / constants, a body of at most 6 statements without break / continue / nested
     definitions that does not rebind any name of the display, and a loop variable that is not read after the loop."""
@@ -1781,6 +1785,32 @@ def _unroll_literal_loops(fn):
             if isinstance(st, ast.Try):
                 for hd in st.handlers:
                     hd.body = scan(hd.body)
+            # for a, b in _TABLE   (a module-level constant bound once to a display of tuples of names / constants):
+            # each row is unpacked into the targets by plain assignments, the body follows
+            if isinstance(st, ast.For) and not st.orelse and isinstance(st.iter, ast.Name) and module_tables and st.iter.id in module_tables and isinstance(st.target, ast.Tuple) \
+                    and all(isinstance(t_, ast.Name) for t_ in st.target.elts) and len(st.body) <= 6 and not any(t_.id in params for t_ in st.target.elts):
+                rows = module_tables[st.iter.id].elts
+                tnames = [t_.id for t_ in st.target.elts]
+                later = stmts[k + 1:]
+                body_nodes = list(ast.walk(ast.Module(body=st.body, type_ignores=[])))
+                bad = any(isinstance(n, (ast.Break, ast.Continue, ast.Lambda, ast.Yield, ast.YieldFrom, ast.Await, ast.Global, ast.Nonlocal, ast.ListComp, ast.SetComp, ast.DictComp, ast.GeneratorExp))
+                          or isinstance(n, FDEFS + (ast.ClassDef,)) for n in body_nodes)
+                bad = bad or any(isinstance(n, ast.Name) and n.id in tnames for s_ in later for n in ast.walk(s_))
+                bad = bad or any(isinstance(n, ast.Name) and isinstance(n.ctx, (ast.Store, ast.Del)) and n.id == st.iter.id for n in body_nodes)
+                if not bad and 1 <= len(rows) <= 6 and all(isinstance(r_, ast.Tuple) and len(r_.elts) == len(tnames) for r_ in rows):
+                    for r_ in rows:
+                        counter[0] += 1
+                        ren = {t_: f"{t_}__u{counter[0]}" for t_ in tnames}
+                        for t_, e_ in zip(tnames, r_.elts):
+                            out.append(ast.copy_location(ast.Assign(targets=[ast.Name(id=ren[t_], ctx=ast.Store())], value=copy.deepcopy(e_), lineno=st.lineno), st))
+
+                        class R2(ast.NodeTransformer):
+                            def visit_Name(self, n, ren=ren):
+                                if n.id in ren:
+                                    return ast.copy_location(ast.Name(id=ren[n.id], ctx=n.ctx), n)
+                                return n
+                        out.extend(R2().visit(copy.deepcopy(b)) for b in st.body)
+                    continue
             if isinstance(st, ast.For) and not st.orelse and isinstance(st.target, ast.Name) and isinstance(st.iter, (ast.Tuple, ast.List)) and 1 <= len(st.iter.elts) <= 6 \
                     and all(isinstance(e, ast.Constant) or _plain_chain(e) for e in st.iter.elts) and len(st.body) <= 6 and st.target.id not in params:
                 v = st.target.id
@@ -1817,6 +1847,79 @@ def _unroll_literal_loops(fn):
     fn.body = scan(fn.body)
 
 
+class _BoolOfCompare(ast.NodeTransformer):
+    """bool(a == b) -> a == b   (a comparison / `not` / isinstance already yields a truth value in the analysed code)"""
+
+    def visit_Call(self, node):
+        self.generic_visit(node)
+        if isinstance(node.func, ast.Name) and node.func.id == "bool" and len(node.args) == 1 and not node.keywords:
+            a = node.args[0]
+            if isinstance(a, ast.Compare) or (isinstance(a, ast.UnaryOp) and isinstance(a.op, ast.Not)) or (isinstance(a, ast.Call) and isinstance(a.func, ast.Name) and a.func.id == "isinstance"):
+                return a
+        return node
+
+
+def _inline_local_closures(fn):
+    """def f(p): return E   (inside a function body) ... f(A) ...   ->   ... E[p := A] ...   when f is only ever called (never passed on),
+    by positional arguments, in the statements that follow its definition in the same block, none of which rebinds a name E reads;
+    arguments that are used more than once must be names or constants"""
+    def scan(stmts):
+        out: List[ast.stmt] = []
+        i = 0
+        while i < len(stmts):
+            st = stmts[i]
+            for field in ("body", "orelse", "finalbody"):
+                sub = getattr(st, field, None)
+                if isinstance(sub, list) and sub and isinstance(sub[0], ast.stmt) and not isinstance(st, FDEFS + (ast.ClassDef,)):
+                    setattr(st, field, scan(sub))
+            if isinstance(st, ast.Try):
+                for hd in st.handlers:
+                    hd.body = scan(hd.body)
+            if isinstance(st, ast.FunctionDef) and not st.decorator_list and not st.args.defaults and not st.args.vararg and not st.args.kwarg and not st.args.kwonlyargs \
+                    and len(_strip_doc(st.body)) == 1 and isinstance(_strip_doc(st.body)[0], ast.Return) and _strip_doc(st.body)[0].value is not None:
+                name, params = st.name, [a.arg for a in st.args.args]
+                expr = _strip_doc(st.body)[0].value
+                rest = stmts[i + 1:]
+                free = {n.id for n in ast.walk(expr) if isinstance(n, ast.Name) and n.id not in params}
+                ok = not any(isinstance(n, (ast.Lambda, ast.Yield, ast.YieldFrom, ast.Await, ast.NamedExpr)) for n in ast.walk(expr))
+                calls, other = [], 0
+                for r in rest:
+                    for n in ast.walk(r):
+                        if isinstance(n, ast.Call) and isinstance(n.func, ast.Name) and n.func.id == name:
+                            calls.append(n)
+                        if isinstance(n, ast.Name) and n.id == name:
+                            other += 1
+                        if isinstance(n, ast.Name) and isinstance(n.ctx, (ast.Store, ast.Del)) and (n.id in free or n.id == name):
+                            ok = False
+                        if isinstance(n, FDEFS + (ast.Lambda,)) and any(isinstance(x, ast.Name) and x.id == name for x in ast.walk(n)):
+                            ok = False
+                if other != len(calls) or not calls:
+                    ok = False
+                uses = {p_: sum(1 for n in ast.walk(expr) if isinstance(n, ast.Name) and n.id == p_) for p_ in params}
+                for c in calls:
+                    if c.keywords or len(c.args) != len(params) or any(isinstance(a, ast.Starred) for a in c.args):
+                        ok = False
+                    elif any(uses[p_] > 1 and not isinstance(a, (ast.Name, ast.Constant)) for p_, a in zip(params, c.args)):
+                        ok = False
+                if ok:
+                    ids = {id(c) for c in calls}
+
+                    class R(ast.NodeTransformer):
+                        def visit_Call(self, node):
+                            self.generic_visit(node)
+                            if id(node) in ids:
+                                return ast.copy_location(_Subst(dict(zip(params, node.args))).visit(copy.deepcopy(expr)), node)
+                            return node
+                    stmts[i + 1:] = [R().visit(r) for r in rest]
+                    i += 1
+                    continue
+            out.append(st)
+            i += 1
+        return out
+
+    fn.body = scan(fn.body)
+
+
 def normalise_module(module_name: str, tree: ast.Module, multiply_defined: frozenset = frozenset()) -> ast.Module:
     mt: Dict[str, ast.Tuple] = {}
     counts: Dict[str, int] = {}
@@ -1831,6 +1934,10 @@ def normalise_module(module_name: str, tree: ast.Module, multiply_defined: froze
                 mt[st.targets[0].id] = st.value
     mt = {k: v for k, v in mt.items() if counts.get(k) == 1}
     _local_annotations_to_assignments(tree)
+    tree = _BoolOfCompare().visit(tree)
+    for n in ast.walk(tree):
+        if isinstance(n, FDEFS):
+            _inline_local_closures(n)
     tree = _Isinstance(mt).visit(tree)
     if mt:
         tree = _MembershipInModuleTuple(mt).visit(tree)
@@ -1858,9 +1965,15 @@ def normalise_module(module_name: str, tree: ast.Module, multiply_defined: froze
         for n in ast.walk(tree):
             if isinstance(n, FDEFS):
                 _fold_private_records(n, records)
+    module_tables = {}
+    for st in tree.body:
+        if isinstance(st, ast.Assign) and len(st.targets) == 1 and isinstance(st.targets[0], ast.Name) and counts.get(st.targets[0].id) == 1 and st.targets[0].id.startswith("_") \
+                and isinstance(st.value, (ast.Tuple, ast.List)) and st.value.elts \
+                and all(isinstance(r_, ast.Tuple) and r_.elts and all(isinstance(e_, ast.Constant) or _plain_chain(e_) for e_ in r_.elts) for r_ in st.value.elts):
+            module_tables[st.targets[0].id] = st.value
     for n in ast.walk(tree):
         if isinstance(n, FDEFS):
-            _unroll_literal_loops(n)
+            _unroll_literal_loops(n, module_tables)
     tree.body = _split_tuple_assigns(tree.body)
     if had_helpers or records:
         for n in ast.walk(tree):
